@@ -41,6 +41,7 @@ fn run(r: &mut Run) -> Result<(), MachineryError> {
     let t = r.tier;
     text_space(r, "C08/texts", &[L, SP, NL, HY, W], t.pick(5, 8), &gamma(), M_C08, WidthMode::Display, 4)?;
     pmachine::p_space(r, "C08/paragraph-machine", t.pick(3, 5), true, false)?;
+    word_seq_space(r, "C08/word-sequences", M_C08, algs_default())?;
     // user-supplied wrap algorithms (one word per line; a naive greedy one that can emit an empty
     // first line): the indents do not depend on the algorithm
     let gc = Gamma { seps: seps(), algs: vec![Alg::CustomOnePerLine, Alg::CustomNaiveGreedy], spls: vec![Spl::Hyphen], bws: vec![true, false], indents: vec![("", ""), (">", ""), ("", "> "), ("* ", "  "), ("\u{4f60}", ">")], crlf: vec![false] };
